@@ -328,7 +328,8 @@ def generate(rng, tier, index):
             u, i = rng.choice(incs)
             target = urllib.parse.urljoin(u, _INC.match(res[u][i]).group(1))
             res = {k: list(v) for k, v in res.items()}
-            depth = rng.choice([4, 9, 17, 18, 25, 40])
+            # (beyond some 190 levels the interpreter's stack ends: KF-4)
+            depth = rng.choice([4, 9, 17, 18, 25, 40, 40, 120, 230])
             prev, first = u, None
             chain = []
             for k in range(depth):
@@ -540,10 +541,13 @@ def _execute(plan, out, store, decoys_in, top, real, report_plan=None):
     def probe(name, n=1):
         out["probes"][name] = out["probes"].get(name, 0) + n
 
-    def violation(clause, detail):
+    def violation(clause, detail, what=None):
+        key = {"clause": clause, "variant": variant}
+        if what:
+            key["what"] = what
         out["violations"].append({
             "sig": "C06|%s|%s" % (clause, variant),
-            "key": {"clause": clause, "variant": variant},
+            "key": key,
             "detail": (detail.replace(real[0], "$SCRATCH") if real
                        else detail),
             "plan": report_plan})
@@ -665,9 +669,15 @@ def _execute(plan, out, store, decoys_in, top, real, report_plan=None):
                        "include-via-define", "import-in-fragment",
                        "deep-chain", "odd-first-char", "big-fragment"):
             if oi["ok"] != oc["ok"]:
+                what = None
+                if variant == "deep-chain" and oi["ok"] \
+                        and plan.get("chain_depth", 0) >= 150 \
+                        and oc.get("cfgerr") \
+                        and "nested too deeply" in (oc.get("msg") or ""):
+                    what = "include-nesting-exhausts-the-stack"
                 violation("outcome-differs",
                           "inlined text %s but cut layout %s"
-                          % (ops.brief(oi), ops.brief(oc)))
+                          % (ops.brief(oi), ops.brief(oc)), what)
             elif oi["ok"] and oi["tree"] != oc["tree"]:
                 violation("tree-differs",
                           "value trees differ: inlined %s / cut %s"
